@@ -208,6 +208,8 @@ def runtime_case(cid, named, fields, container, mode, want, shape="pre_post"):
                 "alone": "pub enum S%s { V %s }",
                 "with_ignored": "pub enum S%s { V %s, #[error(ignore)] Ign(E9) }",
                 "ignored_first": "pub enum S%s { #[error(ignore)] Ign { source: E9 }, V %s }",
+                # an ignored variant stays ignored whatever its fields say
+                "ignored_marked": "pub enum S%s { #[error(ignore)] Ign { #[error(source)] inner: E9 }, V %s, #[error(ignore)] Ign2(#[error(not(backtrace))] E9), #[error(ignore)] Ign3(#[error(source)] E9, u8) }",
                 "two_sourced": "pub enum S%s { V %s, W { source: E9 } }"}[shape] % (gen, body)
         ctor = ("S::V { %s }" % ", ".join("%s: %s" % (a, v) for a, v in zip(names, vals))) if named else "S::V(%s)" % ", ".join(vals)
         pats = ["p%d" % i for i in range(n)]
@@ -229,6 +231,8 @@ def runtime_case(cid, named, fields, container, mode, want, shape="pre_post"):
         lines.append('r.eq("an ignored variant has no source", src_adr(&S%s::Ign(E9(9))), None);' % tf)
     elif container == "enum" and shape == "ignored_first":
         lines.append('r.eq("an ignored variant has no source", src_adr(&S%s::Ign { source: E9(9) }), None);' % tf)
+    elif container == "enum" and shape == "ignored_marked":
+        lines.append('r.eq("an ignored variant has no source, whatever attributes its fields carry", (src_adr(&S%s::Ign { inner: E9(9) }), src_adr(&S%s::Ign2(E9(9))), src_adr(&S%s::Ign3(E9(9), 1))), (None, None, None));' % (tf, tf, tf))
     elif container == "enum" and shape == "two_sourced":
         lines.append('{ let w = S%s::W { source: E9(9) }; let a = match &w { S::W { source } => adr(source), _ => unreachable!() }; r.eq("the sibling variant has its own source", src_adr(&w), Some(a)); }' % tf)
     disp = "impl%s ::core::fmt::Display for S%s { fn fmt(&self, f: &mut ::core::fmt::Formatter<'_>) -> ::core::fmt::Result { write!(f, \"S\") } }" % (gen, gen)
@@ -316,7 +320,7 @@ def run(chk, tier):
                 cases.append(runtime_case("c%d" % len(cases), named, fields, container, mode, wsrc))
                 # sibling variants: none, an ignored one (after / before), one with a source of its own
                 if container == "enum" and mode in ("plain", "generic") and (n <= 2 or thorough):
-                    for shape in ("alone", "with_ignored", "ignored_first", "two_sourced"):
+                    for shape in ("alone", "with_ignored", "ignored_first", "ignored_marked", "two_sourced"):
                         cases.append(runtime_case("c%d" % len(cases), named, fields, container, mode, wsrc, shape=shape))
     eng = CompileEngine("C09", prelude=PRELUDE, per_bin=max(8, len(cases) // 16 + 1))
     results = eng.run_cases(cases)
@@ -335,7 +339,7 @@ def run(chk, tier):
         else:
             chk.violation("wrong source at run time %s" % c.meta["mode"], c.meta["src"], r.detail)
     chk.part("B_runtime_stable", programs=len(cases), bins_built=eng.bins_built, rounds=eng.rounds, build_s=round(eng.build_s, 1),
-             enum_shapes=["Pre / V / Post", "V alone", "V + ignored variant", "ignored variant + V", "V + variant with its own source"], note="layouts without a detected backtrace (a `provide` method needs nightly); field types: distinct error types, Box<dyn Error+Send+Sync>, generic T: Error, and the four boxed trait-object flavours holding an error that itself has a source")
+             enum_shapes=["Pre / V / Post", "V alone", "V + ignored variant", "ignored variant + V", "ignored variants whose fields carry source / not(backtrace) attributes", "V + variant with its own source"], note="layouts without a detected backtrace (a `provide` method needs nightly); field types: distinct error types, Box<dyn Error+Send+Sync>, generic T: Error, and the four boxed trait-object flavours holding an error that itself has a source")
     # ---------------- seam B on nightly: layouts with a detected backtrace (their `provide` method needs an unstable feature)
     if thorough:
         ncases = []
